@@ -290,6 +290,75 @@ theorem itemByI_no_match (i n : Nat) : ∀ m, ∀ (c : Val), sizeOf c ≤ m →
         apply h (.idx j :: q) ds
         simpa [Val.at, Val.child, hj] using hd
 
+
+theorem itemByKey_no_match (k : String) (keys : List String) : ∀ m, ∀ (c : Val), sizeOf c ≤ m → c.KeysNodup →
+    (∀ q cs, c.at q = some (.dict cs) → sortStr (keysOf cs) ≠ keys) →
+    itemByKey k keys c = c := by
+  intro m
+  induction m with
+  | zero => intro c h; cases c <;> simp at h
+  | succ m ih =>
+    intro c hs hn h
+    cases c with
+    | cell a => simp [itemByKey]
+    | list cs => simp [itemByKey]
+    | tuple cs => simp [itemByKey]
+    | dict kvs =>
+      have hk : sortStr (keysOf kvs) ≠ keys := h [] kvs (by simp [Val.at])
+      have hnd : (keysOf kvs).Nodup := hn [] kvs (by simp [Val.at])
+      simp only [itemByKey, hk, ↓reduceIte, itemByKeyKVs_eq_map]
+      have : ∀ kv ∈ kvs, (kv.1, itemByKey k keys kv.2) = id kv := by
+        intro kv hkv
+        have hl := lookup_of_mem_nodup kvs kv hkv hnd
+        have hc : (Val.dict kvs).child (.key kv.1) = some kv.2 := by simpa [Val.child] using hl
+        have := ih kv.2 (by have := sizeOf_kv_lt hkv; simp at hs; omega) (KeysNodup_child hn hc)
+          (fun q cs hq => h (.key kv.1 :: q) cs (by simpa [Val.at, Val.child, hl] using hq))
+        simp [this]
+      simp only [mapKW]
+      rw [List.map_congr_left this, List.map_id]
+
+/-! ### `sorted(keys)` keeps the keys -/
+
+theorem mem_insertStr (k x : String) : ∀ l, x ∈ insertStr k l ↔ x = k ∨ x ∈ l
+  | [] => by simp [insertStr]
+  | h :: t => by
+      simp only [insertStr]
+      split
+      · simp
+      · simp only [List.mem_cons, mem_insertStr k x t]
+        constructor
+        · rintro (h | h | h) <;> simp [h]
+        · rintro (h | h | h) <;> simp [h]
+
+theorem mem_sortStr (x : String) : ∀ l, x ∈ sortStr l ↔ x ∈ l
+  | [] => by simp [sortStr]
+  | h :: t => by simp only [sortStr, mem_insertStr, mem_sortStr x t, List.mem_cons]
+
+theorem lookup_isSome_of_mem_keys (k : String) : ∀ (kvs : KW), k ∈ keysOf kvs → ∃ y, kvs.lookup k = some y
+  | [], h => by simp [keysOf] at h
+  | (j, w) :: kvs, h => by
+      simp only [List.lookup_cons]
+      by_cases e : k = j
+      · subst e; exact ⟨w, by simp⟩
+      · have : (k == j) = false := by simpa using e
+        simp only [this]
+        apply lookup_isSome_of_mem_keys k kvs
+        simp only [keysOf, List.map_cons, List.mem_cons] at h
+        rcases h with h | h
+        · exact absurd h e
+        · exact h
+
+theorem mem_keys_of_lookup (k : String) (y : Val) : ∀ (kvs : KW), kvs.lookup k = some y → k ∈ keysOf kvs
+  | [], h => by simp at h
+  | (j, w) :: kvs, h => by
+      simp only [List.lookup_cons] at h
+      simp only [keysOf, List.map_cons, List.mem_cons]
+      by_cases e : k = j
+      · exact Or.inl e
+      · have : (k == j) = false := by simpa using e
+        rw [this] at h
+        exact Or.inr (mem_keys_of_lookup k y kvs h)
+
 /-! ### positional = keyword passing -/
 
 /-- "the parameter of `f` that follows `k` positional companions is called `name`": passing one more
